@@ -26,7 +26,26 @@ pub const ENTRY: Entry = Entry {
 };
 
 fn sweep(ctx: &Ctx, acc: &mut Acc, cfg: &Cfg, values: &mut dyn Iterator<Item = u32>) {
-    let mut rig = Rig::new(cfg);
+    sweep_with(ctx, acc, cfg, values, 0)
+}
+
+/// `mode` bit 0: all data pins start high; bit 1: sleep() and wake() once before drawing
+fn sweep_with(ctx: &Ctx, acc: &mut Acc, cfg: &Cfg, values: &mut dyn Iterator<Item = u32>, mode: u8) {
+    let mut levels = crate::env::Board::default_levels();
+    if mode & 1 != 0 {
+        for l in levels.iter_mut().take(16) {
+            *l = true;
+        }
+    }
+    let mut rig = Rig::with(cfg, levels, &[]);
+    if mode & 2 != 0 && rig.init.is_ok() {
+        let a = rig.apply(&Op::Sleep);
+        let b = rig.apply(&Op::Wake);
+        if !(a.is_ok() && b.is_ok()) {
+            acc.violation(Violation { prop: ctx.prop.clone(), sig: "sleep-wake/outcome".into(), msg: format!("{a:?} {b:?}"), case: json!({"kind": "c05", "variant": ctx.variant, "cfg": cfg, "value": null, "mode": mode}) });
+            return;
+        }
+    }
     if !rig.init.is_ok() {
         acc.violation(Violation { prop: ctx.prop.clone(), sig: "init/failed".into(), msg: format!("{:?}", rig.init), case: json!({"kind": "c05", "variant": ctx.variant, "cfg": cfg, "value": null}) });
         return;
@@ -78,7 +97,7 @@ fn sweep(ctx: &Ctx, acc: &mut Acc, cfg: &Cfg, values: &mut dyn Iterator<Item = u
             bad = mk("stream-vs-repeat", format!("stream path words {raw_stream:04x?}, repeat path words {raw_rep1:04x?} / {raw_rep3:04x?}"));
         }
         if let Some((sig, msg)) = bad {
-            acc.violation(Violation { prop: ctx.prop.clone(), sig, msg, case: json!({"kind": "c05", "variant": ctx.variant, "cfg": cfg, "value": v}) });
+            acc.violation(Violation { prop: ctx.prop.clone(), sig, msg, case: json!({"kind": "c05", "variant": ctx.variant, "cfg": cfg, "value": v, "mode": mode}) });
             rig.ctl.viols.clear();
         }
         if n % 97 == 0 {
@@ -138,7 +157,8 @@ fn run(ctx: &Ctx) -> Part {
     let a = jobs
         .par_iter()
         .fold(Acc::new, |mut acc, (cfg, lo, hi)| {
-            sweep(ctx, &mut acc, cfg, &mut (*lo..*hi));
+            // every fourth chunk starts with all data pins high
+            sweep_with(ctx, &mut acc, cfg, &mut (*lo..*hi), if (*lo / 4096) % 4 == 1 { 1 } else { 0 });
             acc
         })
         .reduce(Acc::new, Acc::merge);
@@ -159,6 +179,9 @@ fn run(ctx: &Ctx) -> Part {
     let b = bjobs
         .par_iter()
         .fold(Acc::new, |mut acc, cfg| {
+            // the same lattice again with data pins that start high and after one sleep / wake cycle
+            // (a re-announced pixel format, bus lines never driven since power-up)
+            sweep_with(ctx, &mut acc, cfg, &mut lattice(cfg.c666()).into_iter().step_by(3), 3);
             if quick {
                 sweep(ctx, &mut acc, cfg, &mut lattice(cfg.c666()).into_iter());
             } else {
@@ -241,6 +264,10 @@ pub fn replay(case: &serde_json::Value) -> i32 {
     let cfg: Cfg = serde_json::from_value(case["cfg"].clone()).unwrap();
     let mut rig = Rig::new(&cfg);
     println!("announced COLMOD {:02x?}", rig.ctl.colmod);
+    let mode = case["mode"].as_u64().unwrap_or(0) as u8;
+    if mode != 0 {
+        println!("(recorded with mode {mode}: bit 0 = data pins start high, bit 1 = after sleep + wake; this replay starts from the default board)");
+    }
     if let Some(v) = case["value"].as_u64() {
         let v = v as u32;
         let _ = rig.apply(&Op::SetPixel { x: 0, y: 0, c: v });
